@@ -9,6 +9,9 @@ All six were reported by `shutdown --tier quick --seed 1` (see the rule named af
       (class started / entered_before_worker_shutdown), graceful_resolved_before_running_handler_done
   d   coordinator and workers ignore the timeout                                    -> graceful_resolution_exceeded_timeout
   d2  only the coordinator ignores the timeout (needs a stuck worker)               -> graceful_resolution_exceeded_timeout
+  e   the acceptor also holds the listeners in a Vec<Arc<IncomingStream>>, so dropping the JoinSet closes nothing
+      (reproduced by hand in a scratch worktree)                                     -> connection_accepted_during_drain,
+      listener_open_until_drain_ended
 """
 import sys, os
 SRC = sys.argv[1]
